@@ -123,6 +123,9 @@ def run(ctx):
            coverage=True, label="action-label run (reduced alphabet)")
     ctx.require_actions("MC_Bip32", ["Derive", "Commit"])
     events = core.build_events(ctx, gen_inputs(ctx))
+    # executions the repository's own tests trigger, judged by the same trace specification
+    events += core.suite_events(ctx, ["tests/test_bip32.py", "tests/test_bip44.py", "tests/test_bip84.py", "tests/test_base_wallet.py"],
+                                ("CkdPriv",), len(events), limit=150 if ctx.quick else 3000)
     for e in events[:1] + events[len(events) // 2:len(events) // 2 + 1] + events[-1:]:
         ctx.sample({"call": describe(e), "res": str(e["res"])[:300], "prf_queries_seen": len(e.get("q", []))})
     rj = ctx.validate(MODULE, events, min_shard=20)
